@@ -73,6 +73,52 @@ def _returns_tainted(M: Model, fn: FuncInfo, seen: Set[int], depth: int) -> bool
     return bool(rets) and all(_tainted_expr(M, fn, r.value, seen, depth) for r in rets)
 
 
+def conversion_kinds(M: Model, fn: FuncInfo, e: ast.AST, seen=None, depth: int = 0) -> Set[str]:
+    """Which Gray conversions (binary2gray / gray2binary) the value of e is computed with (locals and repo helpers followed)."""
+    seen = seen or set()
+    out: Set[str] = set()
+    if depth > 6:
+        return out
+    for n in ast.walk(e):
+        if isinstance(n, ast.Call):
+            name = norm(n.func).split('.')[-1]
+            if name in GRAY_FUNCS:
+                out.add(name)
+                continue
+            callee = None
+            if isinstance(n.func, ast.Attribute) and fn.cls is not None and \
+                    (is_self_attr(n.func, fn.self_name or 'self') or norm(n.func.value) in M.classes):
+                c = fn.cls if is_self_attr(n.func, fn.self_name or 'self') else M.classes[norm(n.func.value)]
+                callee = M.lookup_method(c, n.func.attr)
+            elif isinstance(n.func, ast.Name):
+                callee = M.resolve_function(fn.module, n.func)
+            if callee is not None and id(callee.node) not in seen:
+                for r in walk_no_nested(callee.node):
+                    if isinstance(r, ast.Return) and r.value is not None:
+                        out |= conversion_kinds(M, callee, r.value, seen | {id(callee.node)}, depth + 1)
+        if isinstance(n, ast.Name) and isinstance(n.ctx, ast.Load):
+            key = (id(fn.node), n.id)
+            if key in seen:
+                continue
+            for a in walk_no_nested(fn.node):
+                if isinstance(a, ast.Assign) and any(isinstance(t, ast.Name) and t.id == n.id for t in a.targets):
+                    v = a.value
+                    out |= conversion_kinds(M, fn, v.slice if isinstance(v, ast.Subscript) and False else v, seen | {key}, depth + 1)
+    return out
+
+
+def gather_index(fn: FuncInfo, arg: ast.AST) -> Optional[ast.AST]:
+    """The index expression idx of the gather `natural[idx]` that produces the table passed to setConstellation."""
+    if isinstance(arg, ast.Subscript):
+        return arg.slice
+    if isinstance(arg, ast.Name):
+        assigns = sorted((n for n in walk_no_nested(fn.node) if isinstance(n, ast.Assign)
+                          and any(isinstance(t, ast.Name) and t.id == arg.id for t in n.targets)), key=lambda n: n.lineno)
+        if assigns and isinstance(assigns[-1].value, ast.Subscript):
+            return assigns[-1].value.slice
+    return None
+
+
 def gray_ordered_argument(M: Model, fn: FuncInfo, arg: ast.AST) -> bool:
     """The table passed to setConstellation is `X[idx]` / a local last assigned `X[idx]` with a Gray-derived idx."""
     if isinstance(arg, ast.Subscript):
@@ -91,7 +137,7 @@ def check(ctx: Ctx) -> None:
     M = ctx.model
     ctx.assume('the index returned by binary2gray/gray2binary is a Gray permutation (C15.b/c decide their shape); the '
                'natural-order tables built by _createConstellation are in angular / raster order')
-    ctx.rule('C15.a', 'every table handed to setConstellation by PSK/QAM is ordered through a Gray-derived index', floor=3)
+    ctx.rule('C15.a', 'every table handed to setConstellation by PSK/QAM is gathered through an index derived from gray2binary (Gray order, right direction)', floor=5)
     for cname in ('PSK', 'QAM'):
         cls = M.cls(cname)
         for c in [cls] + M.subclasses(cls):
@@ -105,6 +151,23 @@ def check(ctx: Ctx) -> None:
                         ctx.instance('C15.a', construct)
                         ok = gray_ordered_argument(M, fn, n.args[0])
                         ctx.obligation('C15.a', construct, ok, {'argument': norm(n.args[0])[:80]})
+                        if ok:
+                            # direction: the table is GATHERED as natural[idx]; label l must sit at position gray2binary(l)
+                            # (so that the position p carries the label binary2gray(p)); binary2gray is the wrong direction and
+                            # coincides with it only while the code is an involution (at most 2 bits per axis)
+                            idx = gather_index(fn, n.args[0])
+                            kinds = conversion_kinds(M, fn, idx) if idx is not None else set()
+                            dconstruct = construct + ':direction'
+                            ctx.instance('C15.a', dconstruct)
+                            okd = kinds == {'gray2binary'}
+                            ctx.obligation('C15.a', dconstruct, okd, {'gather_index': norm(idx)[:60] if idx is not None else None,
+                                                                      'conversions_reaching_the_index': sorted(kinds)})
+                            if not okd:
+                                ctx.violation('C15.a', construct, 'the natural-order table is gathered with an index built from %s: a gather '
+                                              'needs the inverse map gray2binary (label l at position gray2binary(l)); binary2gray agrees with '
+                                              'it only up to 2 bits per axis, so QAM-64/256 are not Gray labelled (16 of 112 / 96 of 480 '
+                                              'nearest-neighbour pairs differ in more than one bit)' % sorted(kinds), fn.path, n.lineno,
+                                              operand='direction')
                         if not ok:
                             ctx.violation('C15.a', construct, 'installs the table `%s` which is not re-ordered through a '
                                           'binary2gray/gray2binary index: nearest neighbours then differ in more than one bit '
